@@ -282,6 +282,7 @@ func (n *RootNode) Remove(ctx context.Context, req *fuse.RemoveRequest) (err err
 		// Notify the file system that the associated files have been deleted.
 		// We have to put this in a goroutine otherwise it locks the system.
 		go func() {
+			verifBeforeNotifyDelete(dbName)
 			_ = n.fsys.server.NotifyDelete(n, nil, dbName+"-journal")
 			_ = n.fsys.server.NotifyDelete(n, nil, dbName+"-wal")
 			_ = n.fsys.server.NotifyDelete(n, nil, dbName+"-shm")
